@@ -30,10 +30,15 @@ import BHS.Props.C02
 
 set_option linter.unusedSectionVars false
 set_option linter.unusedSimpArgs false
+-- when the translator refuses the Go source the regenerated module is empty: every theorem that mentions a generated
+-- function must then fail with ONE error that names it (no auto-bound variables, no failing `open`)
+set_option autoImplicit false
+namespace BHS.Gen.Confirmations
+end BHS.Gen.Confirmations
 
 namespace BHS.Props.ConfirmationsGen
 open BHS BHS.Chain BHS.MerkleRootsPrim BHS.Proofs.ConfirmationsGen BHS.Props.C02
-open BHS.Gen.Confirmations   -- on its own line: when the translator refuses the Go source this namespace is empty
+open BHS.Gen.Confirmations
 variable {H : Type} [DecidableEq H]
 
 /-! ## What one item is answered with -/
@@ -62,7 +67,7 @@ def tipErr : Option Err := some (.bhsWrap "ErrGetChainTipHeight" .scanNull)
 
 theorem getChainTipHeight_refines (s : Store H) :
     HeadersDb_getChainTipHeight s =
-      .ok (match maxLcHeight s with
+      Except.ok (match maxLcHeight s with
         | some m => ((m : Int), none)
         | none => (0, some .scanNull)) := by
   unfold HeadersDb_getChainTipHeight dbGet_sqlTipOfChainHeight
@@ -71,7 +76,7 @@ theorem getChainTipHeight_refines (s : Store H) :
 /-- one item at the SQL layer: never an error (the lookup either finds a row or reports sql.ErrNoRows, which the code
     treats as "no hash") -/
 theorem getMerkleRootConfirmation_refines (s : Store H) (it : ReqItem H) (tipH : Int) :
-    HeadersDb_getMerkleRootConfirmation s it tipH = .ok (some (dbConfOf s tipH it), none) := by
+    HeadersDb_getMerkleRootConfirmation s it tipH = Except.ok (some (dbConfOf s tipH it), none) := by
   unfold HeadersDb_getMerkleRootConfirmation dbGet_sqlVerifyHash dbConfOf
   cases it.merkleRoot.bind (fun k => verifyHash s k it.blockHeight) <;>
     simp [isNoRows, Err.isNoRows, bind, Except.bind, pure, Except.pure]
@@ -79,7 +84,7 @@ theorem getMerkleRootConfirmation_refines (s : Store H) (it : ReqItem H) (tipH :
 /-- the request loop at the SQL layer: one database-level confirmation per item, in order; the tip-height error -/
 theorem HeadersDb_GetMerkleRootsConfirmations_refines (s : Store H) (items : List (ReqItem H)) :
     HeadersDb_GetMerkleRootsConfirmations s items =
-      .ok (match maxLcHeight s with
+      Except.ok (match maxLcHeight s with
         | some tipH => (items.map (fun it => some (dbConfOf s (tipH : Int) it)), none)
         | none => ([], tipErr)) := by
   unfold HeadersDb_GetMerkleRootsConfirmations
@@ -95,7 +100,7 @@ theorem HeadersDb_GetMerkleRootsConfirmations_refines (s : Store H) (items : Lis
 
 /-- the classification of one database-level confirmation -/
 theorem ToMerkleRootConfirmation_refines (s : Store H) (c : DbConf H) (e : Int) :
-    DbMerkleRootConfirmation_ToMerkleRootConfirmation s (some c) e = .ok (some (confOfDb c e)) := by
+    DbMerkleRootConfirmation_ToMerkleRootConfirmation s (some c) e = Except.ok (some (confOfDb c e)) := by
   unfold DbMerkleRootConfirmation_ToMerkleRootConfirmation confOfDb
   by_cases hv : c.hash.isSome = true
   · simp [hv, deref, bind, Except.bind, pure, Except.pure]
@@ -108,7 +113,7 @@ theorem ToMerkleRootConfirmation_refines (s : Store H) (c : DbConf H) (e : Int) 
 
 /-- the mapping loop of the dto layer -/
 theorem ConvertToMerkleRootsConfirmations_refines (s : Store H) (cs : List (DbConf H)) (e : Int) :
-    dto_ConvertToMerkleRootsConfirmations s (cs.map some) e = .ok (cs.map (fun c => some (confOfDb c e))) := by
+    dto_ConvertToMerkleRootsConfirmations s (cs.map some) e = Except.ok (cs.map (fun c => some (confOfDb c e))) := by
   unfold dto_ConvertToMerkleRootsConfirmations
   simp only [bind, Except.bind, pure, Except.pure]
   rw [forRange_append_some (fun c => [some (confOfDb c e)])]
@@ -123,7 +128,7 @@ theorem ConvertToMerkleRootsConfirmations_refines (s : Store H) (cs : List (DbCo
     the tip height and the excess only; or the tip-height error with no entries -/
 theorem confirmations_pointwise (s : Store H) (e : Int) (items : List (ReqItem H)) :
     MerklerootsService_GetMerkleRootsConfirmations s e items =
-      .ok (match maxLcHeight s with
+      Except.ok (match maxLcHeight s with
         | some tipH => (items.map (answer1 s e tipH), none)
         | none => ([], tipErr)) := by
   unfold MerklerootsService_GetMerkleRootsConfirmations HeaderRepository_GetMerkleRootsConfirmations
@@ -141,13 +146,13 @@ theorem confirmations_pointwise (s : Store H) (e : Int) (items : List (ReqItem H
     items (duplicates in the request) get equal entries; an entry does not change when the other items do -/
 theorem confirmations_pointwise_entries (s : Store H) (e : Int) (items : List (ReqItem H)) (tipH : Nat)
     (ht : maxLcHeight s = some tipH) :
-    ∃ res, MerklerootsService_GetMerkleRootsConfirmations s e items = .ok (res, none) ∧ res.length = items.length ∧
+    ∃ res, MerklerootsService_GetMerkleRootsConfirmations s e items = Except.ok (res, none) ∧ res.length = items.length ∧
       (∀ i (hi : i < items.length) (hi' : i < res.length),
-        MerklerootsService_GetMerkleRootsConfirmations s e [items[i]] = .ok ([res[i]], none)) ∧
+        MerklerootsService_GetMerkleRootsConfirmations s e [items[i]] = Except.ok ([res[i]], none)) ∧
       (∀ i j (hi : i < items.length) (hj : j < items.length) (hi' : i < res.length) (hj' : j < res.length),
         items[i] = items[j] → res[i] = res[j]) ∧
       (∀ (items' : List (ReqItem H)) i (hi : i < items.length) (hi2 : i < items'.length) (hi' : i < res.length),
-        items'[i] = items[i] → ∃ res', MerklerootsService_GetMerkleRootsConfirmations s e items' = .ok (res', none) ∧
+        items'[i] = items[i] → ∃ res', MerklerootsService_GetMerkleRootsConfirmations s e items' = Except.ok (res', none) ∧
           res'[i]? = some res[i]) := by
   refine ⟨items.map (answer1 s e tipH), by rw [confirmations_pointwise, ht], by simp, ?_, ?_, ?_⟩
   · intro i hi hi'
@@ -191,7 +196,7 @@ theorem answer1_eq_verifyItem (s : Store H) (e : Int) (tipH : Nat) (root : H) (h
 theorem GetMerkleRootsConfirmations_refines (s : Store H) (e : Int) (req : List (H × Int))
     (hr : ∀ x ∈ req, Int32 x.2) :
     MerklerootsService_GetMerkleRootsConfirmations s e (req.map itemOf) =
-      .ok (match verify s e req with
+      Except.ok (match verify s e req with
         | some res => (res.map (fun x => some (confOf x)), none)
         | none => ([], tipErr)) := by
   rw [confirmations_pointwise]
@@ -214,7 +219,7 @@ theorem verdictName_inj (a b : Verdict) (h : verdictName a = verdictName b) : a 
 theorem single_generated (s : Store H) (e : Int) (tipH : Nat) (root : H) (h : Int)
     (ht : maxLcHeight s = some tipH) (hh : Int32 h) :
     MerklerootsService_GetMerkleRootsConfirmations s e [itemOf (root, h)] =
-      .ok ([some ⟨some root, h, (verifyItem s e tipH root h).2, verdictName (verifyItem s e tipH root h).1⟩], none) := by
+      Except.ok ([some ⟨some root, h, (verifyItem s e tipH root h).2, verdictName (verifyItem s e tipH root h).1⟩], none) := by
   rw [confirmations_pointwise, ht]
   simp only [List.map_cons, List.map_nil, answer1_eq_verifyItem s e tipH root h hh]
   rfl
@@ -224,7 +229,7 @@ theorem single_generated (s : Store H) (e : Int) (tipH : Nat) (root : H) (h : In
 theorem C02_confirmed_generated (s : Store H) (e : Int) (tipH : Nat) (root : H) (h : Int) (hash : H)
     (hu : LcUnique s) (ht : maxLcHeight s = some tipH) (hh : Int32 h) :
     MerklerootsService_GetMerkleRootsConfirmations s e [itemOf (root, h)] =
-        .ok ([some ⟨some root, h, some hash, "CONFIRMED"⟩], none) ↔
+        Except.ok ([some ⟨some root, h, some hash, "CONFIRMED"⟩], none) ↔
       ∃ r, IsLcAt s r h ∧ r.merkle = root ∧ r.hash = hash := by
   rw [single_generated s e tipH root h ht hh, ← C02_confirmed s e tipH root h hu hash]
   constructor
@@ -239,7 +244,7 @@ theorem C02_confirmed_generated (s : Store H) (e : Int) (tipH : Nat) (root : H) 
 theorem C02_unable_generated (s : Store H) (e : Int) (tipH : Nat) (root : H) (h : Int)
     (ht : maxLcHeight s = some tipH) (hh : Int32 h) (he : ExcessOk e) :
     (∃ hash, MerklerootsService_GetMerkleRootsConfirmations s e [itemOf (root, h)] =
-        .ok ([some ⟨some root, h, hash, "UNABLE_TO_VERIFY"⟩], none)) ↔
+        Except.ok ([some ⟨some root, h, hash, "UNABLE_TO_VERIFY"⟩], none)) ↔
       (∀ r, IsLcAt s r h → r.merkle ≠ root) ∧ h > (tipH : Int) ∧ h - (tipH : Int) ≤ e := by
   rw [single_generated s e tipH root h ht hh, ← C02_unable s e tipH root h he]
   constructor
@@ -256,7 +261,7 @@ theorem C02_answered_generated_reachable (cfg : Cfg H) (g : Row H) (hg : BHS.Pro
     (hr : ∀ x ∈ req, Int32 x.2) :
     ∃ res, verify (run cfg [g] hist) e req = some res ∧ res.length = req.length ∧
       MerklerootsService_GetMerkleRootsConfirmations (run cfg [g] hist) e (req.map itemOf) =
-        .ok (res.map (fun x => some (confOf x)), none) := by
+        Except.ok (res.map (fun x => some (confOf x)), none) := by
   obtain ⟨res, hv⟩ := C02_answered_reachable cfg g hg hz hist e req
   refine ⟨res, hv, (C02_shape _ e req res hv).1, ?_⟩
   rw [GetMerkleRootsConfirmations_refines _ e req hr, hv]
@@ -264,15 +269,15 @@ theorem C02_answered_generated_reachable (cfg : Cfg H) (g : Row H) (hg : BHS.Pro
 /-! ## Non-vacuity: the generated functions computed on the concrete store of C02 (a fork at height 1) -/
 
 example : MerklerootsService_GetMerkleRootsConfirmations exStore 6 ([(902, 1), (901, 1), (999, 3), (999, 9)].map itemOf) =
-    .ok ([some ⟨some 902, 1, some 102, "CONFIRMED"⟩, some ⟨some 901, 1, none, "INVALID"⟩,
+    Except.ok ([some ⟨some 902, 1, some 102, "CONFIRMED"⟩, some ⟨some 901, 1, none, "INVALID"⟩,
           some ⟨some 999, 3, none, "UNABLE_TO_VERIFY"⟩, some ⟨some 999, 9, none, "INVALID"⟩], none) := by rfl
 
 /-- duplicates and near-duplicates each get their own answer; the empty request; a store without a tip -/
 example : MerklerootsService_GetMerkleRootsConfirmations exStore 6 ([(902, 1), (902, 1), (90, 21)].map itemOf) =
-      .ok ([some ⟨some 902, 1, some 102, "CONFIRMED"⟩, some ⟨some 902, 1, some 102, "CONFIRMED"⟩,
+      Except.ok ([some ⟨some 902, 1, some 102, "CONFIRMED"⟩, some ⟨some 902, 1, some 102, "CONFIRMED"⟩,
             some ⟨some 90, 21, none, "INVALID"⟩], none) ∧
-    MerklerootsService_GetMerkleRootsConfirmations exStore 6 [] = .ok ([], none) ∧
-    MerklerootsService_GetMerkleRootsConfirmations ([] : Store Nat) 6 [itemOf (902, 1)] = .ok ([], tipErr) :=
+    MerklerootsService_GetMerkleRootsConfirmations exStore 6 [] = Except.ok ([], none) ∧
+    MerklerootsService_GetMerkleRootsConfirmations ([] : Store Nat) 6 [itemOf (902, 1)] = Except.ok ([], tipErr) :=
   ⟨by rfl, by rfl, by rfl⟩
 
 example : LcUnique exStore ∧ maxLcHeight exStore = some 1 ∧ Int32 1 ∧ ExcessOk 6 ∧ (∀ x ∈ [(902, (1 : Int))], Int32 x.2) := by
